@@ -17,7 +17,7 @@ value and must be reported as unevaluated; `uns` / `big` expressions (unsigned a
 >= 2^31) and the table HARD must be unevaluated or exactly what g++ computes; an initialiser interrogate may
 not be able to evaluate (flag mu of ConstExprEnv) must not remove the declarations around it.  Oracle sanity: g++ compiles the SAME headers and prints the same
 constants; spec != g++ is a MachineryError, never a violation."""
-import os, json, subprocess, sys
+import os, json, subprocess, sys, threading
 from ..common import MachineryError, VERIF
 from .. import build, tlc, run
 from .. import constexpr as X
@@ -139,7 +139,18 @@ def expr_case(cid, rec):
         # a wrong number (no compiler computes one), so under && / || only normal termination is demanded.
         c["lines"].append("#define M_%d %s" % (cid, text(1)))
         c["items"].append(item("M", "M_%d" % cid, None, noval=True))
-        c["any_value_ok"] = has_node(t, "bin", "&&") or has_node(t, "bin", "||")
+        c["any_value_ok"] = d == "div0" and (has_node(t, "bin", "&&") or has_node(t, "bin", "||"))
+        if d == "ovf" and not has_node(t, "ulit"):
+            # C++ gives the expression no value (an int operation overflows).  A tool that evaluates in a
+            # wider type, as the preprocessor does, may report the exact value where that fits in int
+            # (`1 + 2147483647 != -1` is 1); `2147483647 + 1` itself can only be unevaluated.
+            ex = X.ev_exact(t)
+            if ex is None:
+                # ... and where the overflowed operand feeds an operation that is undefined on it (a shift of
+                # a negative value, intmax_t overflow) nothing is claimed beyond normal termination
+                c["any_value_ok"] = True
+            elif X.INT_MIN <= ex <= X.INT_MAX:
+                c["items"][-1].update(noval=False, val=ex, mu=True, noask=True)
     else:
         # "uns" / "big": unsigned arithmetic that wraps, or a literal >= 2^31, is evaluated.  Outside the
         # value claim; the database must say `unevaluated` or exactly what the compiler computes.
@@ -560,10 +571,10 @@ def run_check(ctx):
         spec, cfg, workers, sim, depth = j
         dump = os.path.join(work, "dump-%s.ndjson" % cfg)
         res = tlc.run(spec, cfg, workers=workers, env={"VERIF_DUMP": dump}, simulate=sim, depth=depth,
-                      timeout=600 if tier == "quick" else 1500, xmx="3g")
+                      timeout=600 if tier == "quick" else 1500, xmx="2g")
         return j, dump, res
     dumps = {}
-    for j, dump, res in run.pmap(job, TLC_JOBS[tier], workers=len(TLC_JOBS[tier])):
+    for j, dump, res in run.pmap(job, TLC_JOBS[tier], workers=len(TLC_JOBS[tier]) if tier == "quick" else 3):
         ctx.add_tlc(res)
         if res.verdict == "invariant":
             raise MachineryError("%s/%s: invariant %s violated in the model\n%s" % (j[0], j[1], res.violated, res.out[-2500:]))
@@ -614,55 +625,59 @@ def run_check(ctx):
         k = -(-len(envs) // lim)
         envs = envs[::k]
 
-    cases = []
-    cid = 0
+    # light-weight case descriptions; the case itself (texts, expectations) is built inside the worker
+    # that replays its batch and dropped afterwards (the thorough tier has > 10^6 cases)
     for key, rec in trees:
-        cid += 1
-        cases.append(expr_case(cid, rec))
+        rec.pop("m", None)
+        rec.pop("f", None)
     # the expressions outside the value claim go into batches of their own (their oracle may need bisection)
-    cases.sort(key=lambda c: c["d"] in ("uns", "big"))
-    n_expr = len(cases)
-    for s in sorted(lits):
-        cid += 1
-        cases.append(lit_case(cid, lits[s]))
-    n_lit = len(cases) - n_expr
-    for key, rec in envs:
-        cid += 1
-        cases.append(env_case(cid, rec))
-    n_env = len(cases) - n_expr - n_lit
-    for k in range(len(HARD)):
-        cid += 1
-        cases.append(hard_case(cid, k))
+    trees.sort(key=lambda kr: kr[1]["d"] in ("uns", "big"))
+    descr = [("expr", rec) for key, rec in trees] + [("lit", lits[s]) for s in sorted(lits)] + \
+            [("env", rec) for key, rec in envs] + [("hard", k) for k in range(len(HARD))]
+    descr = [(kind, cid, x) for cid, (kind, x) in enumerate(descr, 1)]
+    n_expr, n_lit, n_env = len(trees), len(lits), len(envs)
+    del trees, envs
+    make = {"expr": expr_case, "lit": lit_case, "env": env_case, "hard": hard_case}
 
     # ---- replay ------------------------------------------------------------------------------
     rn = Runner(ctx)
-    batches = [cases[i:i + BATCH] for i in range(0, len(cases), BATCH)]
+    batches = [descr[i:i + BATCH] for i in range(0, len(descr), BATCH)]
     stats = dict(compared=0, unevaluated_allowed=0, hard_unevaluated=0, hard_evaluated=0, oracle_constants=0,
                  oracle_rejected=0)
+    lock = threading.Lock()
+    nontrivial = set()
+    ops = set()
+    replayed = [0]
 
     def one(ib):
-        i, b = ib
+        i, bd = ib
         tag = "b%04d" % i
+        b = [make[kind](cid, x) for kind, cid, x in bd]
         parts = rn.isolate(b, tag)
         # the oracle sees the complete batch header (written first by isolate -> run_cases)
         open(os.path.join(work, tag + ".h"), "w").write(header_text(b, LEAVES))
         gvals = run_oracle(work, b, tag)
-        return b, parts, gvals
-    results = run.pmap(one, list(enumerate(batches)))
-    nontrivial = set()
-    n_replayed = 0
-    for b, parts, gvals in results:
-        stats["oracle_constants"] += check_oracle(b, gvals)
-        for part, obs in parts:
-            for c in part:
-                compare(ctx, c, obs, gvals, stats)
-                n_replayed += 1
-                if c["kind"] == "expr" and c["tree"][0] != "lit":
-                    nontrivial.add(json.dumps(c["tree"]))
-                elif c["kind"] == "lit" and not c["text"].isdigit():
-                    nontrivial.add(c["text"])
-                elif c["kind"] == "env" and any(d["e"] and d["e"][0] != "lit" for d in c["prog"]):
-                    nontrivial.add(json.dumps(c["prog"]))
+        with lock:
+            stats["oracle_constants"] += check_oracle(b, gvals)
+            for part, obs in parts:
+                for c in part:
+                    compare(ctx, c, obs, gvals, stats)
+                    replayed[0] += 1
+                    if c["kind"] == "expr":
+                        ops.update(tree_ops(c["tree"]))
+                        if c["tree"][0] != "lit":
+                            nontrivial.add(hash(json.dumps(c["tree"])))
+                    elif c["kind"] == "lit" and not c["text"].isdigit():
+                        nontrivial.add(hash(c["text"]))
+                    elif c["kind"] == "env" and any(d["e"] and d["e"][0] != "lit" for d in c["prog"]):
+                        nontrivial.add(hash(json.dumps(c["prog"])))
+        for f in os.listdir(work):
+            if f.startswith(tag):
+                os.remove(os.path.join(work, f))
+        return [dict(kind=c["kind"], declarations=c["lines"],
+                     expected=[[it["form"], it["name"], it["val"]] for it in c["items"]]) for c in b[:1]]
+    samples = run.pmap(one, list(enumerate(batches)))
+    n_replayed = replayed[0]
     ctx.cov["evaluations"] += stats["compared"]
     ctx.cov["distinct_nontrivial"] = len(nontrivial)
     ctx.cov["traces_validated_against_impl"] += n_replayed
@@ -671,17 +686,13 @@ def run_check(ctx):
                        "the query interface, and through g++; evaluations = constants compared; non-trivial = an "
                        "expression with at least one operator, a literal that is not a plain decimal number, a "
                        "translation unit with at least one reference; distinct = distinct tree / spelling / unit")
-    ops = set()
-    for c in cases:
-        if c["kind"] == "expr":
-            ops |= tree_ops(c["tree"])
     ctx.notes.update(dict(expressions=n_expr, literals=n_lit, units=n_env, units_enumerated=n_env_total,
                           hard_expressions=len(HARD), batches=len(batches), abnormal_cases=len(rn.abnormal),
                           operators_covered=sorted(ops), unevaluated_allowed_why=UNEVAL_OK_WHY, **stats))
-    step = max(1, len(cases) // 5)
-    for c in cases[::step][:5]:
-        ctx.sample(dict(kind=c["kind"], declarations=c["lines"],
-                        expected=[[it["form"], it["name"], it["val"]] for it in c["items"]]))
+    step = max(1, len(samples) // 5)
+    for sm in samples[::step][:5]:
+        for x in sm:
+            ctx.sample(x)
     ctx.assumptions.append("int is 32 bit two's complement, char is signed 8 bit, >> of a negative value is arithmetic "
                            "(C++20), wchar_t / char16_t / char32_t literals are code units: the platform of the oracle compiler")
 
